@@ -43,6 +43,8 @@ pub struct Model<'a> {
     pub nullified: BTreeSet<String>,
     /// the model met something it does not model (introspection sub-trees beyond the templates)
     pub unsupported: Option<String>,
+    /// which rows of the decision table (DESIGN.md appendix A) this run reached
+    pub rows: std::cell::RefCell<BTreeMap<&'static str, u64>>,
 }
 
 pub struct ModelResponse {
@@ -58,6 +60,10 @@ fn child(parent: &str, key: &str) -> String {
 }
 
 impl<'a> Model<'a> {
+    fn row(&self, k: &'static str) {
+        *self.rows.borrow_mut().entry(k).or_default() += 1;
+    }
+
     pub fn execute(&mut self, operation_name: Option<&str>) -> Result<ModelResponse, String> {
         let op = self
             .doc
@@ -114,15 +120,18 @@ impl<'a> Model<'a> {
         for sel in sels {
             // spec 6.3.2: skip first, then include
             if self.eval_if(sel, "skip").unwrap_or(false) {
+                self.row("collect.skipped_by_skip");
                 continue;
             }
             if !self.eval_if(sel, "include").unwrap_or(true) {
+                self.row("collect.skipped_by_include");
                 continue;
             }
             match sel {
                 Selection::Field(f) => {
                     let key = f.response_key().to_string();
                     if let Some(g) = groups.iter_mut().find(|(k, _)| *k == key) {
+                        self.row("collect.field_merged_into_existing_key");
                         g.1.push(f);
                     } else {
                         groups.push((key, vec![f]));
@@ -130,14 +139,17 @@ impl<'a> Model<'a> {
                 }
                 Selection::FragmentSpread(s) => {
                     if !visited.insert(s.fragment_name.to_string()) {
+                        self.row("collect.fragment_already_visited");
                         continue;
                     }
                     let Some(frag) = self.doc.fragments.get(&s.fragment_name) else {
                         continue;
                     };
                     if !self.fragment_applies(object_type, frag.type_condition().as_str()) {
+                        self.row("collect.named_fragment_does_not_apply");
                         continue;
                     }
+                    self.row("collect.named_fragment_applies");
                     let inner: Vec<&'a Selection> = frag.selection_set.selections.iter().collect();
                     // SAFETY-free lifetime note: `frag` borrows from `self.doc: &'a _`
                     self.collect(object_type, &inner, visited, groups);
@@ -145,8 +157,10 @@ impl<'a> Model<'a> {
                 Selection::InlineFragment(i) => {
                     if let Some(cond) = &i.type_condition {
                         if !self.fragment_applies(object_type, cond.as_str()) {
+                            self.row("collect.inline_fragment_does_not_apply");
                             continue;
                         }
+                        self.row("collect.inline_fragment_applies");
                     }
                     let inner: Vec<&'a Selection> = i.selection_set.selections.iter().collect();
                     self.collect(object_type, &inner, visited, groups);
@@ -168,6 +182,7 @@ impl<'a> Model<'a> {
         for (key, fields) in groups {
             let fname = fields[0].name.as_str();
             let Ok(def) = self.schema.type_field(object_type, fname) else {
+                self.row("field.unknown_definition_key_omitted");
                 continue;
             };
             let def: FieldDefinition = (***def).clone();
@@ -207,8 +222,10 @@ impl<'a> Model<'a> {
             Ok(v) => Ok(v),
             Err(Propagate) => {
                 if ty.is_non_null() {
+                    self.row("nullify.non_null_keeps_propagating");
                     Err(Propagate)
                 } else {
+                    self.row("nullify.null_placed_at_nullable");
                     self.nullified.insert(path.to_string());
                     Ok(Some(J::Null))
                 }
@@ -228,6 +245,7 @@ impl<'a> Model<'a> {
         let args = match self.coerce_args(def, field) {
             Ok(a) => a,
             Err(()) => {
+                self.row("field.argument_coercion_error");
                 self.error(path);
                 return self.nullify(path, &def.ty, Err(Propagate));
             }
@@ -239,12 +257,17 @@ impl<'a> Model<'a> {
             .as_ref()
             .is_some_and(|q| q.name == object_type);
         let completed = match field.name.as_str() {
-            "__typename" => Ok(Some(J::String(object_type.to_string()))),
+            "__typename" => {
+                self.row("field.__typename");
+                Ok(Some(J::String(object_type.to_string())))
+            }
             "__schema" | "__type" if is_query_root => {
                 if !self.introspection {
+                    self.row("field.introspection_disabled");
                     self.error(path);
                     Err(Propagate)
                 } else {
+                    self.row("field.introspection_enabled");
                     match self.introspect(field, &args, fields) {
                         Some(v) => {
                             if v.is_null() && def.ty.is_non_null() {
@@ -274,6 +297,7 @@ impl<'a> Model<'a> {
                         .resolve(self.schema, path, object_type, field.name.as_str(), &def.ty);
                 match outcome {
                     Err(_) => {
+                        self.row("field.resolver_error");
                         self.error(path);
                         Err(Propagate)
                     }
@@ -292,23 +316,34 @@ impl<'a> Model<'a> {
         fields: &[&'a Field],
     ) -> Result<Option<J>, Propagate> {
         match v {
-            Val::Skip => Ok(None),
+            Val::Skip => {
+                self.row("complete.skip_for_partial_execution");
+                Ok(None)
+            }
             Val::Leaf(J::Null) => {
                 if ty.is_non_null() {
+                    self.row("complete.null_for_non_null");
                     self.error(path);
                     Err(Propagate)
                 } else {
+                    self.row("complete.null_for_nullable");
                     Ok(Some(J::Null))
                 }
             }
             Val::List(items, _) => {
                 let inner = match ty {
                     Type::Named(_) | Type::NonNullNamed(_) => {
+                        self.row("complete.list_for_named_type");
                         self.error(path);
                         return Err(Propagate);
                     }
                     Type::List(inner) | Type::NonNullList(inner) => inner,
                 };
+                self.row(if matches!(**inner, Type::List(_) | Type::NonNullList(_)) {
+                    "complete.list_of_lists"
+                } else {
+                    "complete.list"
+                });
                 let mut out = vec![];
                 let mut failure: Option<Result<Option<J>, Propagate>> = None;
                 for (i, item) in items.into_iter().enumerate() {
@@ -316,6 +351,7 @@ impl<'a> Model<'a> {
                     self.positions.insert(ipath.clone(), inner.is_non_null());
                     let r = match item {
                         Err(_) => {
+                            self.row("complete.list_item_iterator_error");
                             // apollo-compiler: a failing list *iterator* ends completion of the
                             // list, and the failure is not contained by the item's nullability
                             // (unit test `test_error_path`)
@@ -337,6 +373,7 @@ impl<'a> Model<'a> {
                         Ok(None) => {}
                         Ok(Some(v)) => out.push(v),
                         Err(Propagate) => {
+                            self.row("complete.non_null_item_failed_list_nullified_or_propagated");
                             if failure.is_none() {
                                 let r = self.nullify(path, ty, Err(Propagate));
                                 failure = Some(r);
@@ -355,11 +392,24 @@ impl<'a> Model<'a> {
             Val::Leaf(json) => {
                 let name = match ty {
                     Type::List(_) | Type::NonNullList(_) => {
+                        self.row("complete.leaf_for_list_type");
                         self.error(path);
                         return Err(Propagate);
                     }
                     Type::Named(n) | Type::NonNullNamed(n) => n,
                 };
+                self.row(match self.schema.types.get(name) {
+                    Some(ExtendedType::Enum(_)) => "complete.leaf_for_enum",
+                    Some(ExtendedType::Scalar(_)) => match name.as_str() {
+                        "Int" => "complete.leaf_for_Int",
+                        "Float" => "complete.leaf_for_Float",
+                        "String" => "complete.leaf_for_String",
+                        "Boolean" => "complete.leaf_for_Boolean",
+                        "ID" => "complete.leaf_for_ID",
+                        _ => "complete.leaf_for_custom_scalar",
+                    },
+                    _ => "complete.leaf_for_composite",
+                });
                 let ok = match self.schema.types.get(name) {
                     None | Some(ExtendedType::InputObject(_)) => false,
                     Some(
@@ -385,6 +435,7 @@ impl<'a> Model<'a> {
                 if ok {
                     Ok(Some(json))
                 } else {
+                    self.row("complete.leaf_rejected_by_result_coercion");
                     self.error(path);
                     Err(Propagate)
                 }
@@ -392,11 +443,18 @@ impl<'a> Model<'a> {
             Val::Object(type_name) => {
                 let name = match ty {
                     Type::List(_) | Type::NonNullList(_) => {
+                        self.row("complete.object_for_list_type");
                         self.error(path);
                         return Err(Propagate);
                     }
                     Type::Named(n) | Type::NonNullNamed(n) => n,
                 };
+                self.row(match self.schema.types.get(name) {
+                    Some(ExtendedType::Object(_)) => "complete.object_for_object_type",
+                    Some(ExtendedType::Interface(_)) => "complete.object_for_interface",
+                    Some(ExtendedType::Union(_)) => "complete.object_for_union",
+                    _ => "complete.object_for_leaf_type",
+                });
                 let ok = match self.schema.types.get(name) {
                     Some(ExtendedType::Object(_)) => type_name == name.as_str(),
                     Some(ExtendedType::Interface(_)) => self
@@ -410,8 +468,12 @@ impl<'a> Model<'a> {
                     _ => false,
                 };
                 if !ok {
+                    self.row("complete.object_of_wrong_or_unknown_type");
                     self.error(path);
                     return Err(Propagate);
+                }
+                if fields.len() > 1 {
+                    self.row("complete.merged_sub_selections");
                 }
                 let sels: Vec<&'a Selection> = fields
                     .iter()
